@@ -57,6 +57,14 @@ CHECKS = {
         note=PROOF_NOTE + "Modelled, not verified: the sampling patterns (numpy RandomState, libc rand in the Cython kernels, scipy rotate, spiral float arithmetic), torch reshape / numpy tile; floats of the bisection as ordinals with lo <= mid <= hi; wall-clock only through the harness alarm.",
         technique="Coq proof (list lemmas over the regenerated shape function; well-founded measure for the regenerated bisection skeleton; induction over the candidate stream) + exact shape correspondence + generator oracles",
         design="§6 C04"),
+    "C05": dict(
+        text="Each of the 14 generators' seeded routines is regenerated on every run as a random-discipline program (which stream every call touches, in which region around `with temp_seed(self.rng, seed)`; helper methods inlined along the MRO; temp_seed / integerize_seed checked to be save-seed-restore). "
+             "General theorem over ALL such programs: if no stream is touched outside the block and only the private stream / seeded C kernels inside it, then for every seed and any two states of the private and the global streams the drawn values (hence the masks) coincide and all streams are left as found - "
+             "so the result is independent of any history of earlier calls, of the instance and of the global generators. Discipline of the 14 regenerated programs is decided by computation. "
+             "Tied by history correspondence: recorded private-stream call traces, SHA-256 of numpy/torch/python global states before and after, bit-identical masks and ACS vs a fresh instance after 0-8 earlier calls, int and tuple seeds.",
+        note=PROOF_NOTE + "Modelled, not verified: numpy RandomState seed/get_state/set_state, libc srand/rand in the Cython kernels, purity of the numpy/scipy code between the draws. seed=None is outside the claim.",
+        technique="Coq proof (general theorem over a random-discipline IR regenerated from the source; discipline decided by vm_compute) + history correspondence with recording proxies",
+        design="§6 C05"),
     "C06": dict(
         text="center_mask_func's pad / slice arithmetic, centered_disk_mask's centre and membership test and the magic cap are regenerated on every run and proved for every width, count and shape: exactly L contiguous columns inside the width, containing column N//2, "
              "balanced around it to within one; the cap keeps 1 <= L <= budget; the disc is point-symmetric about (n//2, m//2) and contains it iff r >= 1. Exhaustive exact correspondence (all 1 <= L <= N <= 40; discs up to 14x14). "
